@@ -617,13 +617,37 @@ def multi_any_family():
     return m, styles
 
 
+def alias_ior_family():
+    """A transition list that already serves one event is extended under another name with
+    `|=`: the first event keeps exactly its transitions (the list is not extended in place)."""
+    states = [("a", 1, True, False), ("b", 2, False, False), ("c", 3, False, False)]
+    sts = tuple(S(i, initial=ini, final=fn, value=v) for (i, v, ini, fn) in states)
+    m = M(states=sts,
+          trans=(T("a", "b", ("e1", "e2"), cond=("g1",)), T("b", "c", ("e2",)),
+                 T("c", "a", ("e2",))),
+          provided=(("sm", "g1", ""), ("sm", "g2", ""), ("sm", "after_transition", "")))
+    base = states_attr(states)
+    styles = {
+        "alias:explicit": base + ["e1 = a.to(b, cond='g1')", "e2 = e1 | b.to(c) | c.to(a)"],
+        "alias:ior": base + ["e1 = a.to(b, cond='g1')", "e2 = e1", "e2 |= b.to(c)",
+                             "e2 |= c.to(a)"],
+        "alias:ior-in-helper": base + ["e1 = a.to(b, cond='g1')",
+                                       "def _more(tl, t):\n        tl |= t\n        return tl",
+                                       "e2 = _more(_more(e1, b.to(c)), c.to(a))", "del _more"],
+    }
+    return m, styles
+
+
 def worker(block):
     res = BlockResult()
     if block[0] == "multi-any":
         m, styles = multi_any_family()
         for name, lines in styles.items():
             _check_rendering(res, m, name, lines, {"multi_any": name})
-        res.stats["states"] += 1
+        m, styles = alias_ior_family()
+        for name, lines in styles.items():
+            _check_rendering(res, m, name, lines, {"alias_ior": name})
+        res.stats["states"] += 2
         return res
     if block[0] == "multi":
         for asyn in (False, True):
@@ -718,6 +742,10 @@ def run(tier, seed):
 
 def replay(sc):
     res = BlockResult()
+    if "alias_ior" in sc:
+        m, styles = alias_ior_family()
+        _check_rendering(res, m, sc["alias_ior"], styles[sc["alias_ior"]], sc)
+        return res.violations[0]["message"] if res.violations else None
     if "multi_any" in sc:
         m, styles = multi_any_family()
         _check_rendering(res, m, sc["multi_any"], styles[sc["multi_any"]], sc)
